@@ -93,6 +93,10 @@ def corpus_cases():
         ({"ip": {"EVENT": "1030/h"}}, [[i // 4, "1.1.1.1", "EVENT"] for i in range(1040)]),
         ({"global": {"REQ": "1100/min"}}, [[i // 40, ADDRS[i % 2], "REQ"] for i in range(1110)]),
         ({"2.2.2.2": {"EVENT": "1500/h"}, "ip": {"EVENT": "2000/h"}}, [[i // 2, "2.2.2.2", "EVENT"] for i in range(1510)]),
+        # many addresses inside one interval: an address seen early is still limited when it comes back
+        ({"ip": {"EVENT": "2/h"}, "9.9.9.9": {"EVENT": "1/h"}},
+         [[0, "10.0.0.1", "EVENT"], [0, "10.0.0.1", "EVENT"], [0, "9.9.9.9", "EVENT"]] + [[1 + i // 100, "10.%d.%d.%d" % (1 + i // 65536, (i // 256) % 256, i % 256), "EVENT"] for i in range(4200)]
+         + [[60, "10.0.0.1", "EVENT"], [60, "9.9.9.9", "EVENT"], [61, "10.0.0.1", "EVENT"]]),
     ]
 
 
